@@ -67,6 +67,14 @@ def run(ck):
         ck.cov["model_drift"] = s1.get("drift_samples") or []
     judge(ck, ck.validate("cursor", "CursorTrace", "CursorTrace.cfg", ck.path("replay.ndjson")), "replay of TLC transitions")
     judge(ck, ck.validate("cursor", "CursorTrace", "CursorTrace.cfg", ck.path("record.ndjson")), "recorded random history")
+    # --- growth beyond the listed property: the readers/writers of package buffer (spec/buffer/RW.tla)
+    s3 = ck.drive("rw", "record", "-out", ck.path("rw.ndjson"), "-seed", ck.seed, "-n", 6000 if thorough else 800)
+    ck.cov["evaluations"] += s3["executions"]
+    for f in ck.validate("buffer", "RWTrace", "RWTrace.cfg", ck.path("rw.ndjson")):
+        ev = next((x for x in f["trace"] if x["i"] == f["i"]), {})
+        sig = "rw/%s/%s/%s" % (f["trace"][0].get("kind"), ev.get("ev"), "panic" if ev.get("out") == "panic" else "wrong-result")
+        ck.violation(sig, "buffer.%s: event %s rejected by RW.tla" % (f["trace"][0].get("kind"), json.dumps(ev)),
+                     {"suite": "rw", "trace": f["trace"][: f["i"] + 1], "rejected_event_index": f["i"]})
     ck.assumptions += ["byte alphabet of the exhaustive part is 7 representative values (nul, ascii, 2/3/4-byte leads, continuation, 0xFF)",
                        "slice offsets are measured against the caller's array where the harness owns it, else against Bytes()"]
 
